@@ -250,6 +250,9 @@ impl Directive {
             }
             Directive::Device => {
                 if let DirectiveOps::OpList(values) = opts {
+                    if values.len() != 1 {
+                        bail!("wrong format for .device, expected: {} in {}", opts, point,);
+                    }
                     if let Operand::E(Expr::Ident(value)) = &values[0] {
                         if let Some(device) = DEVICES.get(value.as_str()) {
                             if let Some(old_device) = context
@@ -276,6 +279,8 @@ impl Directive {
                         } else {
                             bail!("unknown device {} in {}", value, point,)
                         }
+                    } else {
+                        bail!("wrong format for .device, expected: {} in {}", opts, point,);
                     }
                 } else {
                     bail!("wrong format for .device, expected: {} in {}", opts, point,);
